@@ -439,6 +439,19 @@ func (p *Prog) Sources(v ssa.Value) []ssa.Value {
 
 // IsCallResult: v is the (i-th) result of a call whose callee name is name.
 func (p *Prog) IsCallResult(v ssa.Value, name string, idx int) bool {
+	// through a transparent helper: the value the helper returns
+	if call, ok := v.(*ssa.Call); ok && TransparentCallee(call) != nil {
+		if srcs := p.Sources(v); len(srcs) == 1 && srcs[0] != v {
+			return p.IsCallResult(srcs[0], name, idx)
+		}
+	}
+	if ex, ok := v.(*ssa.Extract); ok {
+		if call, isC := ex.Tuple.(*ssa.Call); isC && TransparentCallee(call) != nil {
+			if srcs := p.Sources(v); len(srcs) == 1 && srcs[0] != v {
+				return p.IsCallResult(srcs[0], name, idx)
+			}
+		}
+	}
 	switch x := v.(type) {
 	case *ssa.Call:
 		return idx <= 0 && p.CalleeName(&x.Call) == name
